@@ -31,14 +31,18 @@ def b_not(a):
 
 def b_and(*xs):
     out = []
+    opq = None
     for x in xs:
         if isinstance(x, bool):
             if not x:
                 return False
             continue
         if isinstance(x, Opaque):
-            return x
+            opq = opq or x
+            continue
         out.append(x)
+    if opq is not None:
+        return opq      # a definite False wins over an opaque conjunct; otherwise the conjunction is opaque
     if not out:
         return True
     if len(out) == 1:
@@ -48,14 +52,18 @@ def b_and(*xs):
 
 def b_or(*xs):
     out = []
+    opq = None
     for x in xs:
         if isinstance(x, bool):
             if x:
                 return True
             continue
         if isinstance(x, Opaque):
-            return x
+            opq = opq or x
+            continue
         out.append(x)
+    if opq is not None:
+        return opq
     if not out:
         return False
     if len(out) == 1:
@@ -190,6 +198,8 @@ class Interp:
         self.called = set()
         self.trace_calls = False
         self.on_call = None
+        self.std_calls = []   # unmodelled std / third-party calls in execution order (C24 sinks)
+        self.err_origin = None
 
     # ---------------------------------------------------------------- utils
     def unsupported(self, what, node=None):
@@ -508,6 +518,8 @@ class Interp:
         return res
 
     def str_eq(self, a, b):
+        if a.s is None or b.s is None:
+            return self.havoc("eq-on-unknown-string")
         if a.conc and b.conc:
             return a.s == b.s
         ca, cb = a.chars(), b.chars()
@@ -545,7 +557,7 @@ class Interp:
         if isinstance(v, Map):
             return Map([(self.clone(k), self.clone(x)) for k, x in v.entries])
         if isinstance(v, Str):
-            return Str(v.s if v.conc else list(v.s))
+            return Str(v.s if (v.conc or v.s is None) else list(v.s))
         if isinstance(v, tuple):
             return tuple(self.clone(x) for x in v)
         if isinstance(v, Enum):
@@ -598,10 +610,18 @@ class Interp:
         if isinstance(v, Opaque):
             return self.havoc(f"match-on-opaque:{v.label}"), None
         if isinstance(v, SymEnum):
-            cur = self.ctx.concretize_tag(v)
-            if cur != variant:
+            known = self.ctx.known_tags.get(v.id)
+            if known is not None:
+                if known != variant:
+                    return False, None
+                return True, v.fields_for(variant)
+            if variant not in v.variants:
                 return False, None
-            return True, v.fields_for(variant)
+            # lazy two-way split: is the tag this variant or not (the tag stays symbolic otherwise)
+            if self.ctx.branch(v.tag == v.variants.index(variant)):
+                self.ctx.known_tags[v.id] = variant
+                return True, v.fields_for(variant)
+            return False, None
         if isinstance(v, Enum):
             if v.variant != variant:
                 return False, None
@@ -1182,6 +1202,9 @@ class Interp:
         if isinstance(base, IterV):
             base = Vec(base.items)
         if isinstance(base, Vec):
+            if isinstance(self.deref(idx), Opaque):
+                # index computed from unmodelled data: the element is havoc (bounds not decided; stated assumption)
+                return self.havoc("index-by-opaque")
             return base.items[self.index_of(base, idx, e)]
         if isinstance(base, Map):
             r = self.map_get(base, idx, e)
@@ -1305,6 +1328,9 @@ class Interp:
 
     def e_return(self, e):
         v = self.eval_expr(e["e"]) if e["e"] is not None else UNIT
+        dv = self.deref(v)
+        if isinstance(dv, Enum) and dv.ty == "Result" and dv.variant == "Err" and self.err_origin is None:
+            self.err_origin = (self.fn.name, e["line"])   # where this error was constructed (innermost return)
         raise ReturnEx(v)
 
     def e_break(self, e):
@@ -1455,9 +1481,22 @@ class Interp:
         if name == "vec_repeat":
             x = self.eval_expr(args[0])
             n = self.deref(self.eval_expr(args[1]))
+            if isinstance(n, Opaque):
+                n = self.ctx.choose_free(3, "length of vec![x; opaque]")
             n = n if isinstance(n, int) else self.ctx.concretize_int(n, 0, self.loop_bound)
             return Vec([self.clone(x) for _ in range(n)])
-        if name in ("format", "msgtext", "msgcode", "write", "writeln", "concat", "stringify", "serde_json::json"):
+        if name in ("format", "msgtext", "msgcode", "write", "writeln", "concat", "stringify", "serde_json::json",
+                    "include_str", "include_bytes", "env", "line", "file"):
+            if name in ("format", "msgtext", "msgcode") and args:
+                # opaque text, but functional in the values it is built from
+                sigs = []
+                for a in args:
+                    try:
+                        sigs.append(self.arg_sig(self.eval_expr(a)))
+                    except Unsupported:
+                        sigs.append("?")
+                self.havocs.add(name + "!")
+                return Opaque(f"{name}!({', '.join(sigs)})")
             return self.havoc(name + "!")
         if name in ("println", "print", "eprintln", "eprint", "dbg", "log::info", "log::debug", "tracing::debug",
                     "debug", "info", "warn", "trace", "error"):
@@ -1519,6 +1558,28 @@ class Interp:
             return stdmodels.call_std_path(self, (None, f.target), f.name, args, node)
         self.unsupported(f"apply {f}", node)
 
+    def arg_sig(self, a, depth=0):
+        a = self.deref(a)
+        if isinstance(a, Opaque):
+            return a.label
+        if isinstance(a, Rc):
+            return f"rc#{a.ident}"
+        if isinstance(a, Struct):
+            if "0" in a.fields and isinstance(a.fields["0"], Rc):
+                return f"{a.name}#{a.fields['0'].ident}"
+            if depth < 2:
+                return a.name + "{" + ",".join(f"{k}={self.arg_sig(v, depth + 1)}" for k, v in list(a.fields.items())[:4]) + "}"
+            return a.name
+        if isinstance(a, Str):
+            return repr(a.s) if a.conc else "str"
+        if isinstance(a, Int):
+            return str(a.v) if a.conc else "int"
+        if isinstance(a, (Enum, SymEnum)):
+            return f"{a.ty}"
+        if isinstance(a, (bool, int)):
+            return str(a)
+        return type(a).__name__
+
     def call_closure(self, c, args, node):
         saved_scopes, saved_fn = self.scopes, self.fn
         binds = {}
@@ -1544,7 +1605,8 @@ class Interp:
         if name in self.natives:
             return self.natives[name](self, args, fn)
         if name in self.opaque_fns or fn["name"] in self.opaque_fns:
-            return self.havoc(name + "()")
+            # opaque but functional: the label records which arguments it was applied to
+            return Opaque(f"{name}({', '.join(self.arg_sig(a) for a in args)})")
         self.called.add((name, fn.get("file"), fn["line"], fn["end_line"], fn["hash"]))
         if self.on_call is not None:
             self.on_call(name, args)
